@@ -81,6 +81,10 @@ fn gen_case(rng: &mut Rng, idx: u64) -> Case {
             f.block_split = cuts.iter().map(|&c| { let k = c - prev; prev = c; k }).collect();
         }
     }
+    // every sixth case: names that are not UTF-8 (decoded lossily by `read_string`)
+    if idx % 6 == 3 {
+        mangle_names(rng, &mut fns);
+    }
     // every ninth case: the ARCS record of block 0 of the first function is not the first one
     // (`EntryFirst` of Props/C15Entry.lean violated)
     if idx % 9 == 4 {
@@ -437,6 +441,38 @@ fn oracles(rep: &mut Report, c: &Case, rng: &mut Rng) -> Vec<(String, Vec<usize>
             )),
         }
     }
+    // a run that executed nothing changes nothing: the good members followed / preceded by a gcda
+    // with the same records and every counter zero give the result of the good members alone
+    // (every function is "entered in some gcda files and not in others")
+    if !good.is_empty() {
+        let src = &c.pool[*rng.pick(&good)];
+        let z = zeroed(src);
+        let mut er = rng.fork();
+        let zb = encode_gcda(&z, &mut er);
+        if decode_gcda(&zb).as_ref() == Some(&z) {
+            let base: Vec<Vec<u8>> = good.iter().map(|&i| c.pool_bytes[i].clone()).collect();
+            let mut after = base.clone();
+            after.push(zb.clone());
+            let mut before = vec![zb.clone()];
+            before.extend(base.iter().cloned());
+            let (r0, r1, r2) = (run_compute(&c.gcno, &base, c.branch), run_compute(&c.gcno, &after, c.branch), run_compute(&c.gcno, &before, c.branch));
+            rep.count("oracle.zero_run");
+            match (&r0, &r1, &r2) {
+                (Ok(a), Ok(b), Ok(d)) => {
+                    if show_results(a) != show_results(b) || show_results(a) != show_results(d) {
+                        rep.count("oracle.zero_run.differs");
+                        let which = if show_results(a) != show_results(b) { "after" } else { "before" };
+                        fails.push((format!("a gcda whose counters are all zero, supplied {} the others, changes the result", which), good.clone()));
+                    }
+                }
+                (Err(_), Err(_), Err(_)) => rep.count("oracle.zero_run.all_fail"),
+                (a, b, d) => fails.push((
+                    format!("a gcda whose counters are all zero changes acceptance: {} / {} / {}", show_compute(a), show_compute(b), show_compute(d)),
+                    good.clone(),
+                )),
+            }
+        }
+    }
     // mismatching members are rejected wherever they stand
     for b in 0..c.pool.len() {
         if !c.bad[b] {
@@ -461,7 +497,8 @@ fn oracles(rep: &mut Report, c: &Case, rng: &mut Rng) -> Vec<(String, Vec<usize>
         if let Ok(res) = &r1 {
             let dup_ident = c.fns.iter().enumerate().any(|(i, f)| c.fns.iter().skip(i + 1).any(|g| g.ident == f.ident));
             for (fi, f) in c.fns.iter().enumerate() {
-                let later_same = c.fns.iter().skip(fi + 1).any(|g| g.name == f.name && g.file == f.file);
+                let lossy = |b: &[u8]| String::from_utf8_lossy(b).to_string();
+                let later_same = c.fns.iter().skip(fi + 1).any(|g| lossy(&g.name) == lossy(&f.name) && lossy(&g.file) == lossy(&f.file));
                 if later_same || dup_ident || !f.tree_ok {
                     continue;
                 }
@@ -503,9 +540,13 @@ pub fn run(rep: &mut Report) {
 fn run_inner(rep: &mut Report) {
     rep.rule = "synthetic: 1-3 functions over random CFGs (entry arc, forward skeleton to the exit block, back/self/parallel \
                 arcs, random spanning tree incl. the virtual exit->entry arc, 1/8 with a broken tree flag, fake flags, lines \
-                shared between blocks and foreign-file lines), gcno versions 402*/408*/B22*, gcda = arc counters of random \
+                shared between blocks and foreign-file lines; every sixth case with function / file names that are not \
+                UTF-8, LINES records naming the file by other ill-formed bytes that decode alike, names colliding after \
+                decoding), gcno versions 402*/408*/B22*, gcda = arc counters of random \
                 walks (sometimes scaled to 2^58..2^62 or absent per function), sequences of 0-6 gcda: in order, shuffled with \
-                repeats, k copies, with version/checksum/function-checksum/ident/length/count mismatches and truncation; \
+                repeats, k copies, followed/preceded by an all-zero gcda, with version/checksum/function-checksum/ident/\
+                length/count mismatches and truncation; gcda files re-stamped byte-wise (other canonical stamp, middle \
+                character changed, last character changed); \
                 corpus: every decodable gcno(+gcda) under /repo/test. non-trivial = the gcda sequence carries a non-zero \
                 counter; distinct = distinct canonical model request"
         .to_string();
@@ -536,7 +577,8 @@ fn run_inner(rep: &mut Report) {
             if !f.entry_first() {
                 rep.count("gen.fn.entry_not_first");
                 let good: Vec<usize> = (0..c.pool.len()).filter(|&i| !c.bad[i]).collect();
-                let names_unique = c.fns.iter().filter(|g| g.name == f.name && g.file == f.file).count() == 1;
+                let lossy = |b: &[u8]| String::from_utf8_lossy(b).to_string();
+                let names_unique = c.fns.iter().filter(|g| lossy(&g.name) == lossy(&f.name) && lossy(&g.file) == lossy(&f.file)).count() == 1;
                 if !good.is_empty() && names_unique {
                     let bytes: Vec<Vec<u8>> = good.iter().map(|&i| c.pool_bytes[i].clone()).collect();
                     if let Ok(rs) = run_compute(&c.gcno, &bytes, c.branch) {
@@ -665,11 +707,12 @@ fn run_inner(rep: &mut Report) {
                 }
             }
         }
-        // non-UTF-8 names would reach `from_utf8_unchecked` (undefined behaviour): keep them out
+        // names that are no longer UTF-8 after the corruption are decoded lossily (/repo 7f9b2b3):
+        // they stay in the stream
         let r = run_compute(&gcno, &gcdas, c.branch);
         if let Ok(rs) = &r {
             if rs.iter().any(|(k, cv)| k.contains('\u{fffd}') || cv.functions.keys().any(|n| n.contains('\u{fffd}'))) {
-                continue;
+                rep.count("malformed.result_has_replacement_char");
             }
         }
         let out = show_compute(&r);
@@ -689,6 +732,7 @@ fn run_inner(rep: &mut Report) {
     }
     let answers = run_model_named("gm_c15", &reqs, &rep.workdir, "gcno");
     let base = pend.len();
+    stamp_stream(rep, &mut rng, &cases);
     for (k, (_, out, cj)) in mal.iter().enumerate() {
         if &answers[base + k] != out {
             rep.disagreements_checked += 1;
@@ -719,7 +763,138 @@ fn run_inner(rep: &mut Report) {
     }
 }
 
+/// Version stamps over their four BYTES (second review, item 35). For a synthetic case and a good
+/// gcda: the gcda is re-stamped (a) with another canonical stamp – must be rejected with "GCOV
+/// versions do not match" (`C15_stamp_mismatch_rejected_partial`); (b) with the same stamp whose
+/// middle character is changed (`478*` against `408*`) – the property says rejected; the code
+/// accepts it, because `get_version` ignores that character: named finding
+/// C15-version-stamp-middle-char-ignored, matched precisely (stamps differ in the middle character
+/// only, first character a digit, and the result is the result of the correctly stamped gcda).
+/// Every case also goes through the byte model; `c15.stamp` ties `stampSpelling`, `spellingVersion`
+/// and `stampCanon` to independent Rust versions on random headers.
+fn stamp_stream(rep: &mut Report, rng: &mut Rng, cases: &[Case]) {
+    let synth: Vec<usize> = (0..cases.len())
+        .filter(|&i| !cases[i].fns.is_empty() && cases[i].gcno.len() < 3000 && cases[i].notes.version < 80 && (0..cases[i].pool.len()).any(|k| !cases[i].bad[k]))
+        .collect();
+    let n = rep.budget(300, 10);
+    let mut reqs: Vec<String> = Vec::new();
+    let mut want: Vec<(String, Value)> = Vec::new();
+    for _ in 0..n {
+        if synth.is_empty() || rep.verdict_clear() {
+            break;
+        }
+        let c = &cases[*rng.pick(&synth)];
+        let good: Vec<usize> = (0..c.pool.len()).filter(|&i| !c.bad[i]).collect();
+        let g = *rng.pick(&good);
+        let mut gcda = c.pool_bytes[g].clone();
+        let ns = stamp_spelling(&c.gcno).unwrap();
+        let kind = rng.below(3);
+        // spelling order [c2, c1, c0, '*'] = file bytes 7, 6, 5, 4 of a little-endian file
+        let mut s = ns;
+        match kind {
+            0 => {
+                // another canonical stamp
+                loop {
+                    let t: [u8; 4] = *rng.pick(&[*b"402*", *b"407*", *b"408*", *b"409*", *b"800*", *b"A93*", *b"B01*", *b"B22*", *b"401*", *b"508*"]);
+                    if t != ns {
+                        s = t;
+                        break;
+                    }
+                }
+            }
+            1 => {
+                // the middle character changed: same number for a digit-first stamp
+                s[1] = *rng.pick(&[b'1', b'7', b'9', b'5', b'a', b'/']);
+            }
+            _ => {
+                // the last character changed: another number
+                s[2] = if ns[2] == b'3' { b'4' } else { b'3' };
+            }
+        }
+        gcda[4] = s[3];
+        gcda[5] = s[2];
+        gcda[6] = s[1];
+        gcda[7] = s[0];
+        let r = run_compute(&c.gcno, &[gcda.clone()], c.branch);
+        let out = show_compute(&r);
+        let rb = format!("computeb {} {} {}", if c.branch { 1 } else { 0 }, hex_tok(&c.gcno), hex_tok(&gcda));
+        let cj = json!({"origin": "stamp", "branch": c.branch, "gcno": hex(&c.gcno), "gcdas": [hex(&gcda)], "bad": [true],
+            "model_req": rb.clone(), "check": "stamp", "notes_stamp": String::from_utf8_lossy(&ns), "gcda_stamp": String::from_utf8_lossy(&s)});
+        rep.case(&rb, true);
+        rep.count(&format!("stamp.kind={}.{}", kind, out.split(' ').take(if out.starts_with("err") { 2 } else { 1 }).collect::<Vec<_>>().join("_")));
+        // oracle: different stamp bytes => rejected for the version
+        if s != ns && out != "err versionMismatch" {
+            let same = show_compute(&run_compute(&c.gcno, &[c.pool_bytes[g].clone()], c.branch));
+            let middle_only = s[0] == ns[0] && s[2] == ns[2] && s[3] == ns[3] && s[1] != ns[1] && ns[0].is_ascii_digit();
+            let finding = if middle_only && out == same { Some("C15-version-stamp-middle-char-ignored") } else { None };
+            rep.count(if finding.is_some() { "stamp.finding.middle_char_ignored" } else { "stamp.unexplained" });
+            rep.fail(
+                "oracle",
+                finding,
+                format!("a gcda stamped {:?} is not rejected against notes stamped {:?}: {}", String::from_utf8_lossy(&s), String::from_utf8_lossy(&ns), out.chars().take(80).collect::<String>()),
+                cj.clone(),
+            );
+        }
+        if stamp_canonical(&s) && stamp_canonical(&ns) && s != ns {
+            rep.count("stamp.canonical_mismatch");
+        }
+        reqs.push(rb);
+        want.push((out, cj));
+    }
+    // spec functions of Gcno/Records.lean on random headers
+    let m = rep.budget(400, 10);
+    for _ in 0..m {
+        let magic: &[u8] = *rng.pick(&[&b"oncg"[..], b"adcg", b"gcno", b"gcda", b"oncG"]);
+        let pool: &[u8] = b"0123456789*ABZ@/:az\x00\xff";
+        let mut h = magic.to_vec();
+        let t: [u8; 4] = if rng.chance(1, 2) {
+            let sp: [u8; 4] = *rng.pick(&[*b"408*", *b"402*", *b"A93*", *b"B01*", *b"478*", *b"903*", *b"A48*", *b"Z99*", *b"900*", *b"4085"]);
+            sp
+        } else {
+            [*rng.pick(pool), *rng.pick(pool), *rng.pick(pool), if rng.chance(2, 3) { b'*' } else { *rng.pick(pool) }]
+        };
+        let le = magic[0] == b'o' || magic[0] == b'a';
+        if le {
+            h.extend_from_slice(&[t[3], t[2], t[1], t[0]]);
+        } else {
+            h.extend_from_slice(&t);
+        }
+        if rng.chance(1, 10) {
+            h.truncate(rng.range(4, 7) as usize);
+        }
+        let is_gcno = magic[1] == b'n' || magic[1] == b'c' && magic[2] == b'n';
+        let which = if is_gcno { "g" } else { "d" };
+        let expect = match stamp_spelling(&h) {
+            Some(sp) if &h[..4] != b"oncG" => format!(
+                "ok {} {} {}",
+                hex(&sp),
+                stamp_number(&sp).map(|v| v.to_string()).unwrap_or("-".into()),
+                if stamp_canonical(&sp) { 1 } else { 0 }
+            ),
+            _ => "none".to_string(),
+        };
+        let rq = format!("c15.stamp {} {}", which, hex(&h));
+        rep.case(&rq, true);
+        rep.count(&format!("stamp.spec.{}", expect.split(' ').next().unwrap_or("")));
+        reqs.push(rq.clone());
+        want.push((expect, json!({"origin": "stamp-spec", "model_req": rq, "gcno": "", "gcdas": [], "bad": [], "branch": true, "check": "stamp-spec"})));
+    }
+    let answers = run_model_named("gm_c15", &reqs, &rep.workdir, "stamp");
+    for (i, (w, cj)) in want.iter().enumerate() {
+        if &answers[i] != w {
+            rep.disagreements_checked += 1;
+            let mut cj = cj.clone();
+            cj["impl"] = json!(w);
+            cj["model"] = json!(answers[i]);
+            rep.fail("disagreement", None, "stamp: the byte model / the stamp functions of Gcno/Records.lean differ from the code / the independent reading".into(), cj);
+        }
+    }
+}
+
 pub fn replay(rep: &mut Report, case: &Value) {
+    if case["check"].as_str() == Some("stamp-spec") {
+        return;
+    }
     let gcno = unhex(case["gcno"].as_str().unwrap_or(""));
     let gcdas: Vec<Vec<u8>> = case["gcdas"]
         .as_array()
@@ -745,7 +920,15 @@ pub fn replay(rep: &mut Report, case: &Value) {
         }
     }
     if bad.iter().any(|&b| b) && r.is_ok() {
-        rep.fail("oracle", None, "a mismatching gcda was accepted".into(), case.clone());
+        // a re-stamped gcda whose stamp differs from the notes' in the middle character only
+        // (digit-first stamp) keeps its finding id
+        let finding = match (case["check"].as_str(), stamp_spelling(&gcno), gcdas.first().and_then(|g| stamp_spelling(g))) {
+            (Some("stamp"), Some(ns), Some(s)) if s[0] == ns[0] && s[2] == ns[2] && s[3] == ns[3] && s[1] != ns[1] && ns[0].is_ascii_digit() => {
+                Some("C15-version-stamp-middle-char-ignored")
+            }
+            _ => None,
+        };
+        rep.fail("oracle", finding, "a mismatching gcda was accepted".into(), case.clone());
     }
     let mut rev = gcdas.clone();
     rev.reverse();
